@@ -10,8 +10,6 @@ about every state.
 
 Recorded defects of the code w.r.t. the property text (the model has them too; `…_partial` + `…_counterexample`):
 
-* module directory: the module file of a **URI** is re-used whenever its mtime is not older than the source's –
-  whatever source file it was compiled from (`first_directory_wins_counterexample`, `fresh_counterexample`);
 * LRU collection: `put_string`/`put_template` entries are evicted like any other and are then gone
   (`put_entries_served_lru_counterexample`);
 * "eviction never changes what a lookup returns" is false where a warm lookup may differ from a cold one:
@@ -21,6 +19,12 @@ Recorded defects of the code w.r.t. the property text (the model has them too; `
   theorem eviction_transparent (cfg₁ cfg₂ : Cfg) (same except cap) (h : List Op) :
       (outputs cfg₁ h).map contentView = (outputs cfg₂ h).map contentView
   ```
+
+Repaired in /repo (b4d0d5f): a module file is no longer re-used for another source file – `_compile_from_file`
+compares `module._template_filename`; the model follows (`Generated.Lookup.moduleChecksSourceName`), the former
+`first_directory_wins_counterexample` / `fresh_counterexample` are gone and their witnesses are now regression
+theorems (`…_former_witness`).  What remains with a module directory is the property's own one-second allowance:
+a module file of the *same* source stamped in the very second of the source's mtime is re-used.
 -/
 namespace MakoModel.C14
 open MakoModel.Lookup MakoModel.Generated.Lookup
@@ -39,13 +43,13 @@ example : Inv ⟨2, true, some 1, true⟩ (final ⟨2, true, some 1, true⟩ [.w
 
 /-- **fresh (guarded).**  `filesystem_checks` on; the entry cached under `u` comes from file `f`, which now has an
 mtime at least one whole second later than the entry's compile stamp and compiles.  If there is no module
-directory, or the module file of `u` is older than the source, `get_template(u)` constructs a new template from
-the *current* content of `f`. -/
+directory, or the module file of `u` is older than the source or was generated from another source file,
+`get_template(u)` compiles the *current* content of `f` now. -/
 theorem fresh_partial (cfg : Cfg) (hck : cfg.checks = true) (h : List Op) (u : Uri) (e : Entry) (f : FileRef)
     (file : File) (he : get? (final cfg h).coll u = some e) (hfile : e.val.file = some f)
     (hfs : (final cfg h).fs f = some file) (hnb : file.broken = false)
     (hlater : e.val.stamp + 1 ≤ file.mtime)
-    (hguard : cfg.moddir = true → ∀ m, (final cfg h).mods u = some m → m.time < file.mtime) :
+    (hguard : cfg.moddir = true → ∀ m, (final cfg h).mods u = some m → m.time < file.mtime ∨ m.src ≠ f) :
     ∃ t s', getTemplate cfg (final cfg h) u = (.ok t, s') ∧ t.content = file.content ∧ t.file = some f ∧
       t.stamp = (final cfg h).clock ∧ t.id = (final cfg h).nextId := by
   have hlt : e.val.stamp < file.mtime := by omega
@@ -75,7 +79,7 @@ theorem fresh (cfg : Cfg) (hck : cfg.checks = true) (h : List Op) (hnp : ∀ op 
   obtain ⟨m', hm', ht⟩ := modsync_final cfg h hnp hmd (u, e) (get?_some_mem he) (by simp [hfile])
   simp only at hm' ht
   rw [hm] at hm'; injection hm' with hm'; subst hm'
-  omega
+  left; omega
 
 example : ∃ t s', getTemplate ⟨1, true, some 2, true⟩
       (final ⟨1, true, some 2, true⟩ [.writeFile 0 0 1, .getTemplate 0, .tick 1, .writeFile 0 0 2]) 0 = (.ok t, s')
@@ -83,16 +87,53 @@ example : ∃ t s', getTemplate ⟨1, true, some 2, true⟩
   fresh ⟨1, true, some 2, true⟩ rfl [.writeFile 0 0 1, .getTemplate 0, .tick 1, .writeFile 0 0 2]
     (by decide) 0 ⟨⟨0, 0, some (0, 0), 1, 0⟩, 0⟩ (0, 0) ⟨2, 1, false⟩ (by decide) rfl (by decide) rfl (by decide)
 
-/-- With a module directory and `put_template` the unguarded statement is false: template 0 (compiled at 0 from
-file (0,0)) is put under URI 1; file (0,0) was modified at second 1 ≥ 0+1; the module file of URI 1 was written
-at second 2 from file (0,1); `get_template(1)` reloads – and serves the module of file (0,1) (content 4), not the
-current content 3 of its source. -/
-theorem fresh_counterexample :
+/-- **fresh, every history** (also with `put_template` and a module directory).  Under the premises of `fresh` the
+template returned comes from file `f` and was compiled from its current content – or, with a module directory, is
+the module of this very source stamped in the second of the source's mtime (the one-second allowance of the
+property, applied to the module file). -/
+theorem fresh_any_history (cfg : Cfg) (hck : cfg.checks = true) (h : List Op) (u : Uri) (e : Entry) (f : FileRef)
+    (file : File) (he : get? (final cfg h).coll u = some e) (hfile : e.val.file = some f)
+    (hfs : (final cfg h).fs f = some file) (hnb : file.broken = false)
+    (hlater : e.val.stamp + 1 ≤ file.mtime) :
+    ∃ t s', getTemplate cfg (final cfg h) u = (.ok t, s') ∧ t.file = some f ∧ t.id = (final cfg h).nextId ∧
+      (t.content = file.content ∨ (cfg.moddir = true ∧ t.stamp = file.mtime)) := by
+  have hlt : e.val.stamp < file.mtime := by omega
+  obtain ⟨t, s', hc⟩ := construct_ok_of_compiles (cfg := cfg)
+    (s := { stampHit (final cfg h) u with coll := erase (stampHit (final cfg h) u).coll u }) (k := u) (f := f) hfs hnb
+  have hm : ModCur { stampHit (final cfg h) u with coll := erase (stampHit (final cfg h) u).coll u } :=
+    modcur_congr rfl rfl (modcur_final cfg h)
+  obtain ⟨h1, h2, h3⟩ := construct_ok_current hm hfs hc
+  have hget := (get_hit_check he hck).trans (check_stale_ok hfile hfs hlt hc)
+  exact ⟨_, _, hget, h1, h2, h3⟩
+
+example : ∃ t s', getTemplate ⟨1, true, none, true⟩
+      (final ⟨1, true, none, true⟩ [.writeFile 0 0 1, .getTemplate 0, .tick 1, .writeFile 0 0 3, .tick 1, .writeFile 0 1 4,
+        .getTemplate 1, .putTemplate 1 0]) 1 = (.ok t, s') ∧ t.file = some (0, 0) ∧ t.id = 2 ∧
+      (t.content = 3 ∨ ((true : Bool) = true ∧ t.stamp = 1)) :=
+  fresh_any_history ⟨1, true, none, true⟩ rfl _ 1 ⟨⟨0, 0, some (0, 0), 1, 0⟩, 2⟩ (0, 0) ⟨3, 1, false⟩
+    (by decide) rfl (by decide) rfl (by decide)
+
+/-- Regression (repaired by b4d0d5f): template 0 (compiled at 0 from file (0,0)) is put under URI 1, whose module
+file was written at second 2 from file (0,1); file (0,0) was modified at second 1.  `get_template(1)` used to
+serve the module of file (0,1) (content 4); it now regenerates from its own source: content 3. -/
+theorem fresh_former_witness :
     let cfg : Cfg := ⟨1, true, none, true⟩
     let s := final cfg [.writeFile 0 0 1, .getTemplate 0, .tick 1, .writeFile 0 0 3, .tick 1, .writeFile 0 1 4,
       .getTemplate 1, .putTemplate 1 0]
     (get? s.coll 1).map (fun e => (e.val.file, e.val.stamp)) = some (some (0, 0), 0) ∧
-      s.fs (0, 0) = some ⟨3, 1, false⟩ ∧ (step cfg s (.getTemplate 1)).1 = .ok 2 4 := by
+      s.fs (0, 0) = some ⟨3, 1, false⟩ ∧ (step cfg s (.getTemplate 1)).1 = .ok 2 3 := by
+  decide
+
+/-- Why `fresh` excludes `put_template` and `fresh_any_history` has the second alternative: an *old* template
+object (compiled at 0) is put back under its URI after the source was recompiled at second 1 and changed once
+more within that second; the reload re-uses the module of second 1 (content 2, current is 3).  The template
+returned is stamped 1 = the source's mtime: inside the one-second allowance. -/
+theorem fresh_same_second_put_template_witness :
+    let cfg : Cfg := ⟨1, true, none, true⟩
+    let s := final cfg [.writeFile 0 0 1, .getTemplate 0, .tick 1, .writeFile 0 0 2, .getTemplate 0, .writeFile 0 0 3,
+      .putTemplate 0 0]
+    (get? s.coll 0).map (fun e => (e.val.file, e.val.stamp)) = some (some (0, 0), 0) ∧
+      s.fs (0, 0) = some ⟨3, 1, false⟩ ∧ (step cfg s (.getTemplate 0)).1 = .ok 2 2 := by
   decide
 
 /-! ## stability -/
@@ -145,57 +186,65 @@ example : (getTemplate ⟨1, false, none, false⟩
 
 /-! ## directory priority -/
 
-/-- **first_directory_wins (guarded).**  `u` is not cached, `d` is the first configured directory that holds a
-file `u`, and it compiles.  If there is no module directory, or the module file of `u` is older than that file,
-`get_template(u)` constructs a template from directory `d`'s file and its current content, and caches it. -/
-theorem first_directory_wins_partial (cfg : Cfg) (hcap : cfg.cap ≠ some 0) (h : List Op) (u : Uri) (d : Dir)
+/-- **first_directory_wins** (every configuration).  `u` is not cached, `d` is the first configured directory that
+holds a file `u`, and it compiles.  Then `get_template(u)` constructs a template from directory `d`'s file, caches
+it, and its content is the file's current content – or, with a module directory, that of the module of this very
+file stamped in the second of the file's mtime (the one-second allowance). -/
+theorem first_directory_wins (cfg : Cfg) (hcap : cfg.cap ≠ some 0) (h : List Op) (u : Uri) (d : Dir)
+    (file : File) (hmiss : get? (final cfg h).coll u = none) (hd : d < cfg.ndirs)
+    (hfile : (final cfg h).fs (d, u) = some file) (hfirst : ∀ j, j < d → (final cfg h).fs (j, u) = none)
+    (hnb : file.broken = false) :
+    ∃ t s', getTemplate cfg (final cfg h) u = (.ok t, s') ∧ t.file = some (d, u) ∧
+      t.id = (final cfg h).nextId ∧ valAt s' u = some t ∧
+      (t.content = file.content ∨ (cfg.moddir = true ∧ t.stamp = file.mtime)) := by
+  have hfd : firstDir cfg.ndirs (final cfg h).fs u = some d :=
+    firstDir_some_iff.mpr ⟨by simp [hfile], hd, hfirst⟩
+  obtain ⟨t, s', hc⟩ := construct_ok_of_compiles (cfg := cfg) (s := final cfg h) (k := u) (f := (d, u)) hfile hnb
+  obtain ⟨h1, h2, h3⟩ := construct_ok_current (modcur_final cfg h) hfile hc
+  have hl := load_ok hmiss hc
+  have hget := (get_miss_load hmiss hfd).trans hl
+  have hs := load_ok_served (inv_final cfg h) hcap hmiss hl
+  exact ⟨_, _, hget, h1, h2, hs.1.1, h3⟩
+
+example : ∃ t s', getTemplate ⟨2, true, none, true⟩
+      (final ⟨2, true, none, true⟩ [.writeFile 1 0 1, .tick 1, .writeFile 0 0 2, .getTemplate 0, .tick 1, .deleteFile 0 0,
+        .getTemplate 0]) 0 = (.ok t, s') ∧ t.file = some (1, 0) ∧ t.id = 1 ∧ valAt s' 0 = some t ∧
+      (t.content = 1 ∨ ((true : Bool) = true ∧ t.stamp = 0)) :=
+  first_directory_wins ⟨2, true, none, true⟩ (by decide) _ 0 1 ⟨1, 0, false⟩ (by decide) (by decide) (by decide)
+    (by decide) rfl
+
+/-- **first_directory_wins, exact.**  If there is no module directory, or the module file of `u` is older than the
+file or was generated from another source file, the template is compiled now from the file's current content. -/
+theorem first_directory_wins_exact (cfg : Cfg) (hcap : cfg.cap ≠ some 0) (h : List Op) (u : Uri) (d : Dir)
     (file : File) (hmiss : get? (final cfg h).coll u = none) (hd : d < cfg.ndirs)
     (hfile : (final cfg h).fs (d, u) = some file) (hfirst : ∀ j, j < d → (final cfg h).fs (j, u) = none)
     (hnb : file.broken = false)
-    (hguard : cfg.moddir = true → ∀ m, (final cfg h).mods u = some m → m.time < file.mtime) :
+    (hguard : cfg.moddir = true → ∀ m, (final cfg h).mods u = some m → m.time < file.mtime ∨ m.src ≠ (d, u)) :
     ∃ t s', getTemplate cfg (final cfg h) u = (.ok t, s') ∧ t.file = some (d, u) ∧ t.content = file.content ∧
-      t.id = (final cfg h).nextId ∧ valAt s' u = some t := by
+      t.stamp = (final cfg h).clock ∧ t.id = (final cfg h).nextId ∧ valAt s' u = some t := by
   have hfd : firstDir cfg.ndirs (final cfg h).fs u = some d :=
     firstDir_some_iff.mpr ⟨by simp [hfile], hd, hfirst⟩
   have hc := construct_regen (cfg := cfg) (s := final cfg h) (k := u) (f := (d, u)) hfile hnb hguard
   have hl := load_ok hmiss hc
   have hget := (get_miss_load hmiss hfd).trans hl
   have hs := load_ok_served (inv_final cfg h) hcap hmiss hl
-  exact ⟨_, _, hget, rfl, rfl, rfl, hs.1.1⟩
-
-example : ∃ t s', getTemplate ⟨2, true, none, true⟩
-      (final ⟨2, true, none, true⟩ [.writeFile 1 0 1, .getTemplate 0, .deleteFile 1 0, .getTemplate 0, .tick 1,
-        .writeFile 0 0 2]) 0 = (.ok t, s') ∧
-      t.file = some (0, 0) ∧ t.content = 2 ∧ t.id = 1 ∧ valAt s' 0 = some t :=
-  first_directory_wins_partial ⟨2, true, none, true⟩ (by decide)
-    [.writeFile 1 0 1, .getTemplate 0, .deleteFile 1 0, .getTemplate 0, .tick 1, .writeFile 0 0 2] 0 0
-    ⟨2, 1, false⟩ (by decide) (by decide) (by decide) (by intro j hj; exact absurd hj (Nat.not_lt_zero _)) rfl
-    (by decide)
-
-/-- **first_directory_wins.**  Without a module directory the guard is void. -/
-theorem first_directory_wins (cfg : Cfg) (hmd : cfg.moddir = false) (hcap : cfg.cap ≠ some 0) (h : List Op) (u : Uri)
-    (d : Dir) (file : File) (hmiss : get? (final cfg h).coll u = none) (hd : d < cfg.ndirs)
-    (hfile : (final cfg h).fs (d, u) = some file) (hfirst : ∀ j, j < d → (final cfg h).fs (j, u) = none)
-    (hnb : file.broken = false) :
-    ∃ t s', getTemplate cfg (final cfg h) u = (.ok t, s') ∧ t.file = some (d, u) ∧ t.content = file.content ∧
-      t.id = (final cfg h).nextId ∧ valAt s' u = some t :=
-  first_directory_wins_partial cfg hcap h u d file hmiss hd hfile hfirst hnb (by intro hh; rw [hmd] at hh; cases hh)
+  exact ⟨_, _, hget, rfl, rfl, rfl, rfl, hs.1.1⟩
 
 example : ∃ t s', getTemplate ⟨3, true, some 1, false⟩
       (final ⟨3, true, some 1, false⟩ [.writeFile 2 0 7, .writeFile 1 0 8, .tick 2]) 0 = (.ok t, s') ∧
-      t.file = some (1, 0) ∧ t.content = 8 ∧ t.id = 0 ∧ valAt s' 0 = some t :=
-  first_directory_wins ⟨3, true, some 1, false⟩ rfl (by decide) [.writeFile 2 0 7, .writeFile 1 0 8, .tick 2] 0 1
-    ⟨8, 0, false⟩ (by decide) (by decide) (by decide) (by decide) rfl
+      t.file = some (1, 0) ∧ t.content = 8 ∧ t.stamp = 2 ∧ t.id = 0 ∧ valAt s' 0 = some t :=
+  first_directory_wins_exact ⟨3, true, some 1, false⟩ (by decide) [.writeFile 2 0 7, .writeFile 1 0 8, .tick 2] 0 1
+    ⟨8, 0, false⟩ (by decide) (by decide) (by decide) (by decide) rfl (by intro hh; cases hh)
 
-/-- With a module directory the unguarded statement is false: the file in directory 0 (content 2) is loaded and
-deleted; the uncached URI is then served from directory 1's file (content 1, unchanged since second 0) – with the
-module compiled from the deleted file: content 2. -/
-theorem first_directory_wins_counterexample :
+/-- Regression (repaired by b4d0d5f): the file in directory 0 (content 2) is loaded and deleted; the uncached URI
+is then served from directory 1's file (content 1, unchanged since second 0).  It used to come with the module
+compiled from the deleted file (content 2); now the module is regenerated: content 1. -/
+theorem first_directory_wins_former_witness :
     let cfg : Cfg := ⟨2, true, none, true⟩
     let s := final cfg [.writeFile 1 0 1, .tick 1, .writeFile 0 0 2, .getTemplate 0, .tick 1, .deleteFile 0 0,
       .getTemplate 0]
     get? s.coll 0 = none ∧ s.fs (0, 0) = none ∧ s.fs (1, 0) = some ⟨1, 0, false⟩ ∧
-      (step cfg s (.getTemplate 0)).1 = .ok 1 2 := by
+      (step cfg s (.getTemplate 0)).1 = .ok 1 1 := by
   decide
 
 /-! ## put_string / put_template -/
@@ -298,22 +347,25 @@ example : ∃ s', step ⟨1, true, none, false⟩
 
 /-! ## failure recovery -/
 
-/-- **failed_compile_leaves_lookup_usable.**  If `get_template(u)` raises a compile error, then afterwards there
-is no entry for `u` (the model has no mutex: sequentially it is released by the `finally`), the invariant holds,
-and once the file of the first directory holding `u` is (re)written with compiling content `c` – after any
-tick, also none – `get_template(u)` succeeds with content `c`; also with a module directory. -/
+/-- **failed_compile_leaves_lookup_usable.**  If `get_template(u)` raises a compile error – `f` being the file that
+failed – then afterwards there is no entry for `u` (the model has no mutex: sequentially it is released by the
+`finally`), the invariant holds, and once the first directory's file for `u` is (re)written with compiling content
+`c`, `get_template(u)` succeeds with content `c`: for the corrected file `f` itself after any tick, also none;
+for any other file after a tick of at least a second (or without module directory). -/
 theorem failed_compile_leaves_lookup_usable (cfg : Cfg) (h : List Op) (u : Uri) (s1 : State)
     (hfail : getTemplate cfg (final cfg h) u = (.error .compile, s1)) :
+    ∃ f file, (final cfg h).fs f = some file ∧ file.broken = true ∧
     get? s1.coll u = none ∧ Inv cfg s1 ∧
     ∀ (n : Nat) (d : Dir) (c : Content), d < cfg.ndirs → (∀ j, j < d → s1.fs (j, u) = none) →
+      ((d, u) = f ∨ 1 ≤ n ∨ cfg.moddir = false) →
       ∃ t s3, getTemplate cfg (run cfg s1 [.tick n, .writeFile d u c]).2 u = (.ok t, s3) ∧
         t.content = c ∧ t.file = some (d, u) := by
   have hi := inv_final cfg h
-  obtain ⟨hn, hfs, hclk, hmods, hmod⟩ := get_compile_error hi hfail
+  obtain ⟨f, file, hff, hfb, hn, hfs, hclk, hmods, hmod⟩ := get_compile_error hi hfail
   have hi1 : Inv cfg s1 := by
     have := inv_getTemplate hi u; rw [hfail] at this; exact this
-  refine ⟨hn, hi1, ?_⟩
-  intro n d c hd hfirst
+  refine ⟨f, file, hff, hfb, hn, hi1, ?_⟩
+  intro n d c hd hfirst hwhich
   let s2 : State := { s1 with clock := s1.clock + n, fs := setFs s1.fs (d, u) (some ⟨c, s1.clock + n, false⟩) }
   have hrun : (run cfg s1 [.tick n, .writeFile d u c]).2 = s2 := rfl
   rw [hrun]
@@ -327,11 +379,17 @@ theorem failed_compile_leaves_lookup_usable (cfg : Cfg) (h : List Op) (u : Uri) 
       have hjd : j = d := congrArg Prod.fst hh
       rw [hjd] at hj; exact Nat.lt_irrefl _ hj
     simp [s2, setFs, this, hfirst j hj]
-  have hguard : needsRegen cfg s2 u ⟨c, s1.clock + n, false⟩ := by
+  have hguard : needsRegen cfg s2 u (d, u) ⟨c, s1.clock + n, false⟩ := by
     intro hmd m hm
-    have := hmod hmd m (by rw [← hmods]; exact hm)
-    rw [← hclk] at this
-    simp only; omega
+    have hm0 : (final cfg h).mods u = some m := by rw [← hmods]; exact hm
+    have hle := hi.mod_le u m hm0
+    rw [← hclk] at hle
+    rcases hwhich with hw | hw | hw
+    · rcases hmod hmd m hm0 with h4 | h4
+      · rw [← hclk] at h4; left; simp only; omega
+      · right; rw [hw]; exact h4
+    · left; simp only; omega
+    · rw [hw] at hmd; cases hmd
   have hc := construct_regen (cfg := cfg) (s := s2) (k := u) (f := (d, u)) hfile rfl hguard
   have hget := (get_miss_load (s := s2) hn hfd).trans (load_ok (s := s2) hn hc)
   exact ⟨_, _, hget, rfl, rfl⟩
@@ -340,10 +398,17 @@ example : ∃ t s3, getTemplate ⟨1, true, none, true⟩
       (run ⟨1, true, none, true⟩
         (getTemplate ⟨1, true, none, true⟩
           (final ⟨1, true, none, true⟩ [.writeFile 0 0 1, .getTemplate 0, .tick 1, .breakFile 0 0]) 0).2
-        [.tick 0, .writeFile 0 0 2]).2 0 = (.ok t, s3) ∧ t.content = 2 ∧ t.file = some (0, 0) :=
-  (failed_compile_leaves_lookup_usable ⟨1, true, none, true⟩
-    [.writeFile 0 0 1, .getTemplate 0, .tick 1, .breakFile 0 0] 0 _ rfl).2.2 0 0 2 (by decide)
-    (by intro j hj; exact absurd hj (Nat.not_lt_zero _))
+        [.tick 0, .writeFile 0 0 2]).2 0 = (.ok t, s3) ∧ t.content = 2 ∧ t.file = some (0, 0) := by
+  obtain ⟨f, file, hf, hb, _, _, hkey⟩ := failed_compile_leaves_lookup_usable ⟨1, true, none, true⟩
+    [.writeFile 0 0 1, .getTemplate 0, .tick 1, .breakFile 0 0] 0 _ rfl
+  have hf0 : f = (0, 0) := by
+    by_cases hh : f = (0, 0)
+    · exact hh
+    · exfalso
+      have : (final ⟨1, true, none, true⟩ [.writeFile 0 0 1, .getTemplate 0, .tick 1, .breakFile 0 0]).fs f = none := by
+        simp [final, run, step, init, setFs, getTemplate, hh]
+      rw [this] at hf; cases hf
+  exact hkey 0 0 2 (by decide) (by intro j hj; exact absurd hj (Nat.not_lt_zero _)) (Or.inl hf0.symm)
 
 /-! ## the LRU collection -/
 
